@@ -1,7 +1,7 @@
 SPECIFICATION TSpec
 CONSTANTS
   Call = {"a1", "a2", "b1", "b2", "c1", "c2", "d1"}
-  LCall = {"l1", "l2"}
+  LCall = {"l1", "l2", "l3"}
   CallDef <- MCCallDef
   LDef <- MCLDef
   PeerOrder <- MCPeerOrder
